@@ -9,11 +9,15 @@
         `<path>: <problem>`               (`plain`: Map "Expected a dict")
       `<path>` = top-level field name + element suffix (`_<index>`, `_key`, `_value`, none for Set);
       `Structure.__init__` prefixes `<Class>.` (fail-fast) and `raise_errs_if_needed` renders the
-      collected list through `json.dumps`;  a few checks raise *foreign* exceptions whose text has
-      no path at all (`anon`: `Positive` comparing a non-number, dict/set lookup of an unhashable);
+      collected list through `json.dumps`;
   (b) the three regexes of `typedpy/errors.py` as explicit matchers over `List Char`, and the
       control flow of `standard_readable_error_for_typedpy_exception` (fail-fast / collect-all,
       JSON list decoding, nested expansion, the one place where it can raise).
+      Since /repo 4d96101 the three message regexes are compiled with `re.DOTALL` (`.` matches a
+      newline, so `(.*)$` takes the whole rest) and their field group is `[\w.]+`; `\w` of a `str`
+      pattern is `str.isalnum()` or `_`, supplied as the oracle `W` (only its ASCII part and
+      `W ':' = false` are ever assumed).  `_expected_class_pattern` is NOT DOTALL.
+      Since /repo 9c7ef9a no check of a flat field raises a foreign exception without a path.
 
   Texts are `List Char` (Python `str` = sequence of code points).  Value and problem *texts* are
   parameters (`Texts`): the property is about paths, shapes and parsing, for every text.
@@ -60,16 +64,25 @@ def Msg.render (m : Msg) : Text := withClass m.cls (m.path ++ (':' :: ' ' :: bod
 
 /-! ### the regexes of errors.py as matchers -/
 
-/-- `[a-zA-Z0-9_.]` (explicit ranges in a `str` pattern are ASCII only) -/
-def isFieldChar (c : Char) : Bool := c.isAlphanum || c == '_' || c == '.'
+/-- Python's `str.isalnum` per code point (what `\w` of a `str` pattern matches besides `_`) -/
+abbrev Word := Char → Bool
 
-/-- the text is a non-empty run of `[a-zA-Z0-9_.]` -/
-def identOk (t : Text) : Bool := !t.isEmpty && t.all isFieldChar
+/-- all that is assumed about the oracle: it contains ASCII letters and digits and not `:` -/
+def Word.Sound (W : Word) : Prop := (∀ c : Char, c.isAlphanum = true → W c = true) ∧ W ':' = false
 
-/-- `([a-zA-Z0-9_.]+)` followed by a character outside the class: the maximal run -/
-def spanField : Text → Text × Text
+/-- the ASCII part alone (used for kernel-checked examples) -/
+def asciiWord : Word := fun c => c.isAlphanum
+
+/-- `[\w.]` -/
+def isFieldChar (W : Word) (c : Char) : Bool := W c || c == '_' || c == '.'
+
+/-- the text is a non-empty run of `[\w.]` -/
+def identOk (W : Word) (t : Text) : Bool := !t.isEmpty && t.all (isFieldChar W)
+
+/-- `([\w.]+)` followed by a character outside the class: the maximal run -/
+def spanField (W : Word) : Text → Text × Text
   | [] => ([], [])
-  | c :: cs => if isFieldChar c then ((c :: (spanField cs).1), (spanField cs).2) else ([], c :: cs)
+  | c :: cs => if isFieldChar W c then ((c :: (spanField W cs).1), (spanField W cs).2) else ([], c :: cs)
 
 /-- `[^;]*` followed by `;`: the maximal run without `;` -/
 def spanNoSemi : Text → Text × Text
@@ -82,8 +95,9 @@ def dropPre : Text → Text → Option Text
   | _ :: _, [] => none
   | a :: p, b :: s => if a == b then dropPre p s else none
 
-/-- `(.*)$` at the end of a pattern (no DOTALL / MULTILINE): the rest must be one line, optionally
-    terminated by a single final `\n`, which the group excludes -/
+/-- `(.*)$` at the end of a pattern WITHOUT DOTALL (only `_expected_class_pattern` now): the rest
+    must be one line, optionally terminated by a single final `\n`, which the group excludes.
+    With DOTALL (the three message regexes) `(.*)$` simply takes the whole rest. -/
 def dotEnd : Text → Option Text
   | [] => some []
   | c :: cs => if c == '\n' then (if cs.isEmpty then some [] else none)
@@ -103,24 +117,23 @@ def isPySpace (c : Char) : Bool :=
   || (0x2000 ≤ n && n ≤ 0x200A) || n == 0x2028 || n == 0x2029 || n == 0x202F || n == 0x205F
   || n == 0x3000
 
-/-- regex 1 after `<field>: `: `Got ([^;]*); (.*)$` ↦ (value, problem) -/
+/-- regex 1 after `<field>: `: `Got ([^;]*); (.*)$` (DOTALL) ↦ (value, problem) -/
 def m1tail (rest : Text) : Option (Text × Text) :=
   (dropPre sGot rest).bind fun r1 =>
-  (dropPre sSemiSp (spanNoSemi r1).2).bind fun r3 =>
-  (dotEnd r3).map fun p => ((spanNoSemi r1).1, p)
+  (dropPre sSemiSp (spanNoSemi r1).2).map fun p => ((spanNoSemi r1).1, p)
 
-/-- regexes 2 and 3 after `<field>:\s`: `(.*); Got (.*)$` else `(.*)$` ↦ (value?, problem) -/
-def m23tail (rest : Text) : Option (Option Text × Text) :=
-  (dotEnd rest).map fun line =>
-    match splitLast sSemiGot line with
-    | some pv => (some pv.2, pv.1)
-    | none => (none, line)
+/-- regexes 2 and 3 after `<field>:\s` (DOTALL): `(.*); Got (.*)$` else `(.*)$` ↦ (value?, problem);
+    regex 3 always matches -/
+def m23tail (rest : Text) : Option Text × Text :=
+  match splitLast sSemiGot rest with
+  | some pv => (some pv.2, pv.1)
+  | none => (none, rest)
 
 /-- what the three regexes extract after the field group: (value?, raw problem) -/
 def parseTail (c : Char) (rest : Text) : Option (Option Text × Text) :=
   match (if c == ' ' then m1tail rest else none) with
   | some vp => some (some vp.1, vp.2)
-  | none => if isPySpace c then m23tail rest else none
+  | none => if isPySpace c then some (m23tail rest) else none
 
 /-- `_expected_class_pattern = ^Expected\s<class '(.*)'>$` ↦ the class name -/
 def expectedClass (p : Text) : Option Text :=
@@ -145,36 +158,30 @@ def display (t : Text) : Option Text :=
 
 def sExpected : Text := ['E', 'x', 'p', 'e', 'c', 't', 'e', 'd', ' ']
 
-/-- `_transform_class_to_readable`: (text, opaque).  For a class without display name the real
-    code formats the *match object* (`.get(name, match)`): the text is then
-    `Expected <re.Match object; span=(0, n), match=…>`; the model keeps the matched text and sets
-    the flag. -/
-def transform (p : Text) : Text × Bool :=
+/-- `_transform_class_to_readable`: a class with a display name is spelled out, anything else is
+    returned unchanged -/
+def transform (p : Text) : Text :=
   match expectedClass p with
-  | none => (p, false)
+  | none => p
   | some x => match display x with
-    | some d => (sExpected ++ d, false)
-    | none => (p, true)
+    | some d => sExpected ++ d
+    | none => p
 
 structure Parsed where
   field : Option Text
   value : Option Text
   problem : Text
-  opaqueMatch : Bool
 deriving Repr, DecidableEq
 
 /-- the regex cascade of `_standard_readable_error_for_typedpy_exception_internal`
     (before `try_expand`) -/
-def parseMsg (s : Text) : Parsed :=
-  match (spanField s).1, dropPre [':'] (spanField s).2 with
+def parseMsg (W : Word) (s : Text) : Parsed :=
+  match (spanField W s).1, dropPre [':'] (spanField W s).2 with
   | f :: fs, some (c :: rest) =>
     match parseTail c rest with
-    | some vp => ⟨some (f :: fs), vp.1, (transform vp.2).1, (transform vp.2).2⟩
-    | none => ⟨none, none, s, false⟩
-  | _, _ => ⟨none, none, s, false⟩
-
-/-- exact condition under which `<field>: <rest>` keeps its field -/
-def recoverable (rest : Text) : Bool := (m1tail rest).isSome || (dotEnd rest).isSome
+    | some vp => ⟨some (f :: fs), vp.1, transform vp.2⟩
+    | none => ⟨none, none, s⟩
+  | _, _ => ⟨none, none, s⟩
 
 def noNL (t : Text) : Bool := t.all (· != '\n')
 def noSemi (t : Text) : Bool := t.all (· != ';')
@@ -192,39 +199,41 @@ inductive Loaded where
   | raises
 deriving Repr
 
-/-- Python's `json` module as an oracle -/
+/-- Python's `json` module and `str.isalnum` as oracles -/
 structure Codec where
   dumps : List Text → Text
   loads : Text → Loaded
+  word : Word := asciiWord
 
 def Codec.RoundTrip (J : Codec) : Prop := ∀ xs, J.loads (J.dumps xs) = .strs xs
 
 /-- `ErrorInfo` (the `problem` is a string or a list of nested `ErrorInfo`s) -/
 inductive Info where
-  | leaf (field value : Option Text) (problem : Text) (opaqueMatch : Bool)
+  | leaf (field value : Option Text) (problem : Text)
   | node (field value : Option Text) (subs : List Info)
 deriving Repr
 
 def Info.field : Info → Option Text
-  | .leaf f _ _ _ => f
+  | .leaf f _ _ => f
   | .node f _ _ => f
 
 /-- `ErrorInfo.problem` is neither `''` nor `[]` -/
 def Info.problemNonEmpty : Info → Bool
-  | .leaf _ _ p _ => !p.isEmpty
+  | .leaf _ _ p => !p.isEmpty
   | .node _ _ subs => !subs.isEmpty
 
 /-- `_standard_readable_error_for_typedpy_exception_internal`, `try_expand` included.
     `fuel` bounds the nesting of JSON-in-JSON (decoded strings are shorter than their encoding;
     callers pass the text length). Every exception inside `try_expand` is swallowed there. -/
 def internal (failFast : Bool) (J : Codec) : Nat → Text → Info
-  | 0, s => .leaf (parseMsg s).field (parseMsg s).value (parseMsg s).problem (parseMsg s).opaqueMatch
+  | 0, s => .leaf (parseMsg J.word s).field (parseMsg J.word s).value (parseMsg J.word s).problem
   | fuel + 1, s =>
     if failFast then
-      .leaf (parseMsg s).field (parseMsg s).value (parseMsg s).problem (parseMsg s).opaqueMatch
-    else match (parseMsg s).field, J.loads (parseMsg s).problem with
-      | some f, .strs xs => .node (some f) (parseMsg s).value (xs.map (internal failFast J fuel))
-      | _, _ => .leaf (parseMsg s).field (parseMsg s).value (parseMsg s).problem (parseMsg s).opaqueMatch
+      .leaf (parseMsg J.word s).field (parseMsg J.word s).value (parseMsg J.word s).problem
+    else match (parseMsg J.word s).field, J.loads (parseMsg J.word s).problem with
+      | some f, .strs xs =>
+        .node (some f) (parseMsg J.word s).value (xs.map (internal failFast J fuel))
+      | _, _ => .leaf (parseMsg J.word s).field (parseMsg J.word s).value (parseMsg J.word s).problem
 
 inductive Out where
   | single (i : Info)
@@ -269,25 +278,21 @@ def Suffix.text : Suffix → Text
 structure Loc where
   suffix : Suffix := .none
   shape : Shape := .gotFirst
-  /-- the exception is a foreign one without any path (`'<=' not supported …`, `unhashable type`) -/
-  anon : Bool := false
+  /-- exception class where it differs from the one `validate` (Sem/Validate.lean) reports:
+      since /repo 9c7ef9a `Enum._validate` no longer hashes the value, so an unhashable value is a
+      plain ValueError like every other non-member -/
+  cls : Option ErrCls := none
 deriving Repr, DecidableEq, Inhabited
 
-/-- `x in some_dict` raises TypeError (Boolean's `value in mapping`) -/
-def unhashableKey : PyVal → Bool
-  | .list _ | .dict _ | .deque _ | .set false _ => true
-  | _ => false
-
-/-- scalars: which check of the `__set__` chain rejects `v` (given that one does) -/
+/-- scalars: which check of the `__set__` chain rejects `v` (given that one does).  Sign mixins
+    check the type first (`_require_number`, same text as `Number`), Boolean and Enum no longer
+    hash the value: every rejection is a typedpy message with a path. -/
 def locScalar (f : FieldDecl) (v : PyVal) : Loc :=
   match f with
-  | .number o =>
-    -- `Positive.__set__` etc. compare before any type check
-    if !v.isNumber && o.sign != .any then { anon := true } else {}
   | .integer _ => (match v with | .int _ | .bool _ => {} | _ => { shape := .gotLast })
   | .float _ => (match v with | .int _ | .float _ => {} | _ => { shape := .gotLast })
-  | .boolean => if unhashableKey v then { anon := true } else { shape := .gotLast }
-  | .enumCls _ _ => if unhashable v then { anon := true } else {}
+  | .boolean => { shape := .gotLast }
+  | .enumCls _ _ => { cls := some .valueErr }
   | _ => {}
 
 def isOk {α} : R α → Bool
@@ -398,14 +403,13 @@ structure Site where
   cls : ErrCls
 deriving Repr
 
-/-- value / problem texts of a site (for `anon` sites the problem text is the whole foreign
-    exception text); universally quantified in theorems, read off the real message by the driver -/
+/-- value / problem texts of a site; universally quantified in theorems, read off the real message
+    by the driver -/
 abbrev Texts := Site → Text × Text
 
 /-- `str(e)` of the exception the field raises -/
 def Site.text (T : Texts) (s : Site) : Text :=
-  if s.loc.anon then (T s).2
-  else s.top.toList ++ s.loc.suffix.text ++ (':' :: ' ' :: body s.loc.shape (T s).1 (T s).2)
+  s.top.toList ++ s.loc.suffix.text ++ (':' :: ' ' :: body s.loc.shape (T s).1 (T s).2)
 
 /-- `<top><suffix>` -/
 def Site.path (s : Site) : Text := s.top.toList ++ s.loc.suffix.text
@@ -421,7 +425,7 @@ def sites (O : Oracles) (c : ClassOpts) (kw : List (String × PyVal)) :
     | some v =>
       match validate O f v with
       | .ok _ => sites O c kw rest
-      | .error e => ⟨name, locate O f v, e⟩ :: sites O c kw rest
+      | .error e => ⟨name, locate O f v, ((locate O f v).cls).getD e⟩ :: sites O c kw rest
 
 /-- what `cls(**kw)` raises -/
 inductive Raised where
